@@ -308,7 +308,9 @@ def install(eng):
     M(r'^<.* as std::iter::Iterator>::enumerate$', lambda e, st, fr, f, a, m: one(st, IterV([(g, Agg([i, x])) for i, (g, x) in enumerate(_need_dense(a[0]).ents)], 'val')))
     def it_zip(e, st, fr, f, a, m):
         x, y = _need_dense(a[0]), a[1]
-        if isinstance(y, RefV): y = D(st, y)
+        if isinstance(y, RefV):
+            yv = D(st, y)
+            y = yv if isinstance(yv, IterV) else IterV([(True, y.sub(i)) for i in range(len(yv.items))], 'ref')      # zipping with &[T] / &Vec<T> iterates by reference
         if not isinstance(y, IterV): y = IterV([(True, v) for v in y.items], 'val')
         y = _need_dense(y)
         return one(st, IterV([(True, Agg([p[1], q[1]])) for p, q in zip(x.ents, y.ents)], 'val'))
@@ -366,6 +368,9 @@ def install(eng):
         for _, x in _need_dense(it).ents: st, _r = eng.call1(st, fr, clo, [x])
         return one(st, UNIT)
     M(r'^<.* as std::iter::Iterator>::for_each$', it_for_each)
+    def vec_from_array(e, st, fr, f, a, m):
+        return one(st, VecV.dense(list(a[0].items)))
+    M(r'^<std::vec::Vec<.*> as std::convert::From<\[.*\]>>::from$', vec_from_array)
     def sort_by(e, st, fr, f, a, m):
         """slice::sort_by as a stable insertion network driven by the REAL comparator closure (std's algorithm is trusted to sort
         according to the comparator; what is executed symbolically is the comparator)"""
